@@ -79,6 +79,19 @@ def probe_deep_join(rec_order=(4, 3, 2, 1, 0)):
     return Registry('deep_join', direct, [(1, [3]), (1, [0])], [[[3], [4]], [[0], [4]]], 'direct', list(rec_order))
 
 
+def probe_first_slot_sum():
+    # Top with two methods, Side with one, Join:{Top,Side}, S1,S2,S3:{Side}: the classes under Side get first_slot 2; the sum of the
+    # first slots exceeds the slack of the dispatch-data size computation
+    direct = [[], [], [0, 1], [1], [1], [1]]
+    return Registry('first_slot_sum', direct, [(1, [0]), (1, [0]), (1, [1])], [[[0], [2]], [[0]], [[1], [3], [5]]])
+
+
+def probe_abstract_adjacent():
+    # R <- A <- B and X <- Y, Z: gaps / ambiguities reachable only through a cell shared by an abstract-only group and a concrete one
+    direct = [[], [0], [1], [], [3], [3]]
+    return Registry('abstract_adjacent', direct, [(2, [1, 3]), (2, [0, 3])], [[[1, 4], [2, 4]], [[1, 3], [0, 4], [2, 5]]])
+
+
 def probe_next():
     # C03: (A,A), (A,Dog), (Dog,A), (Dog,Cat) over Animal <- Dog, Cat
     return Registry('tree3_next', LATTICES['tree3'], [(2, [0, 0]), (2, [0, 0])],
@@ -114,10 +127,10 @@ def base_regs(tier):
 
 def c01_queries(tier):
     qs = [_q('C01', r, 'dispatch_' + tag(r, i), covers=(999,)) for i, r in enumerate(base_regs(tier))]
-    if tier == 'thorough':
-        for pol in (2, 3):
-            for j, r in enumerate([probe_diamond(), probe_next()]):
-                qs.append(_q('C01', r, 'dispatch_pol%d_%s' % (pol, tag(r, j)), {'POL': pol}))
+    for pol in (2, 3):
+        for j, r in enumerate([probe_diamond(), probe_next()] if tier == 'thorough' else [probe_diamond()]):
+            qs.append(_q('C01', r, 'dispatch_pol%d_%s' % (pol, tag(r, j)), {'POL': pol, 'PRIOR_GARBAGE': 24},
+                         desc='policy %s, starting from the state an earlier update left' % ('vptr_vector + indirect' if pol == 2 else 'vptr_map')))
     return qs + kernel_queries('C01', tier)
 
 
@@ -136,7 +149,7 @@ def c03_queries(tier):
 
 
 def c04_queries(tier):
-    regs = [probe_c04(), probe_c04('complete', [1, 0, 2, 3]), probe_c04('direct', [1, 0, 2, 3]), probe_three_roots(), probe_diamond(), probe_deep_join()]
+    regs = [probe_c04(), probe_c04('complete', [1, 0, 2, 3]), probe_c04('direct', [1, 0, 2, 3]), probe_three_roots(), probe_diamond(), probe_deep_join(), probe_first_slot_sum()]
     regs += family(tier, shapes=(1, 1, 2, 1, 5), nm=3, max_defs=2)
     if True:
         # incremental (direct bases only) presentation of the family, in a second registration order
@@ -182,7 +195,7 @@ def c08_queries(tier):
 
 
 def c17_queries(tier):
-    regs = [probe_c17(), probe_diamond(), probe_arity3(), probe_next()] + family(tier, shapes=(2, 2, 3, 1, 5), per=1 if tier == 'quick' else 3, max_defs=4)
+    regs = [probe_c17(), probe_abstract_adjacent(), probe_diamond(), probe_arity3(), probe_next()] + family(tier, shapes=(2, 2, 3, 1, 5), per=1 if tier == 'quick' else 3, max_defs=4)
     return [_q('C17', r, 'report_' + tag(r, i), {'CHECK_REPORT': 1}, unwind=130, symbolic='abstract / concrete flag of every class; argument classes')
             for i, r in enumerate(regs)]
 
@@ -191,7 +204,10 @@ def c07_queries(tier):
     regs = [probe_diamond(), probe_next(), probe_c04()] + family(tier, per=1, lattices=['tree3', 'diamond', 'vee'] if tier == 'quick' else None)
     return [_q('C07', r, 'history_' + tag(r, i), {'PRIOR_GARBAGE': 24, 'TWO_UPDATES': 1},
                symbolic='state left by earlier updates: dispatch data (24 words), static v-table pointers, slots/strides, next pointers, vptrs; argument classes')
-            for i, r in enumerate(regs)] + deferred_queries('C07', tier)
+            for i, r in enumerate(regs)] + \
+        [_q('C07', r, 'history_vptr_map_' + tag(r, i), {'PRIOR_GARBAGE': 24, 'TWO_UPDATES': 1, 'POL': 3},
+            symbolic='state left by earlier updates incl. which classes the persistent vptr map already knows; argument classes')
+         for i, r in enumerate([probe_diamond(), probe_next()])] + deferred_queries('C07', tier)
 
 
 def c10_queries(tier):
